@@ -135,13 +135,14 @@ CLAIMED = {
         "and trunc_F0_Z0_exact (every F0/Z0 acquisition with A <= 2m+1 is identical); on the n-D shift model (Model/ShiftND.v, tied by the exact C04 correspondence) "
         "nd_cap (with a cap m every wavenumber kept by the n-D shift, pruned or not, has no component beyond m), prune_keeps_centre (the zero state is never removed), prune_removes_only_negligible (a removed state is below the tolerance in every batch entry), "
         "prune_nothing_negligible_exact (pruning is exact when nothing is negligible) and merge_position0_exact (merging adds amplitudes exactly: the F+ and Z sums are unchanged). "
-        "The n-D truncation horizon, the 2*eps*count pruning bound, the partials-pruner bound and the cell-size displacement bound of "
+        "Over Coquelicot's complex numbers: prune_value_bound_step_partial (ONE pruning step changes a value sum_j chi_j F_j, |chi_j| <= 1, by at most eps per removed state) and prune_tol0_exact. "
+        "The n-D truncation horizon, the propagation of the pruning bound through a whole program (2*eps*cumulative count), the partials-pruner bound and the cell-size displacement bound of "
         "merging are NOT theorems: they are run as oracles on the implementation (truncated vs untruncated incl. caps lowered mid-sequence and "
         "oblique n-D out-and-back echoes with the cap reached exactly, pruned vs unpruned against 2*eps*cumulative state count, Jacobians with a counting "
         "PartialsPruner against 2*threshold*removals incl. batches, merged vs unmerged value at position 0, sum invariants of merging) -- testing.",
    design_ref="DESIGN.md section 4 C13",
-   note=TB + "Model/Ops.v apply_shift (resize(min(n+|d|, nmax)) + in-place shift) tied to shift.py by exact correspondence of truncated programs (global max_nstate and per-operator nmax). "
-        "Axioms: none.",
+   note=TB + "Model/Ops.v apply_shift (resize(min(n+|d|, nmax)) + in-place shift) tied to shift.py by exact correspondence of truncated programs (global max_nstate and per-operator nmax); Model/ShiftND.v (shiftnd plan, masks, select, merge plan) by the exact C04 correspondence. "
+        "Axioms: none for the algebraic theorems; the two real-number theorems use sig_not_dec, sig_forall_dec, functional_extensionality_dep (standard library reals).",
    technique="Coq proof (contamination-front invariant by induction over programs) + exact correspondence + implementation-side oracles"),
  "C03": dict(
    text="Machine-checked proof (Coq) in two halves, as for C02. (a) Bookkeeping: on the literal transcription of diff.py's _apply_order2 / "
